@@ -12,6 +12,10 @@ import OH.Props.TablesC06
 #print axioms OH.Props.C06.C06_print_never_panics
 #print axioms OH.Props.C06.C06_reparsed_evaluates_identically
 #print axioms OH.Props.C06.C06_states_do_not_depend_on_comments
+#print axioms OH.Props.C06.C06_parsed_is_printable
+#print axioms OH.Props.C06.C06_every_parsed_expression_round_trips
+#print axioms OH.Props.C06.C06_every_parsed_expression_reparses_equivalent
+#print axioms OH.Props.C06.C06_print_never_panics_on_parsed
 #print axioms OH.Props.TablesC06.C06_wday_names
 #print axioms OH.Props.TablesC06.C06_wday_names_complete
 #print axioms OH.Props.TablesC06.C06_month_names
